@@ -21,7 +21,7 @@ Contents
 5. Genuine defects found on the pinned tree, their repair, the one known finding
 6. Limits, honest non-coverage, tooling limits, known false-alarm surface
 7. Interface (commands, exit codes, evidence, known findings, thorough tier)
-8. Validation of the machinery: ten rounds of seeded mutations, controls, eleven
+8. Validation of the machinery: eleven rounds of seeded mutations, controls, eleven
    rounds of behaviour-preserving refactorings; which check catches which change;
    what was missed; false alarms met and how they were removed
 
@@ -111,7 +111,7 @@ on `stream.Merge`, i.e. on the same defect the ownership rule found (F2).
 /verif/evidence/Cnn.json   rewritten by every run
 /verif/reports/            violation reports named in "VIOLATION … replay=<path>" (git-ignored)
 /verif/controls/Cnn/*.diff 121 one-line control edits (tools/gen_controls.py)
-/verif/seeded/*/           580 sub-agent mutations with demonstration tests and meta.json
+/verif/seeded/*/           620 sub-agent mutations with demonstration tests and meta.json
 /verif/refactorings/*/     behaviour-preserving refactorings used as false-alarm tests
 /verif/tools/              baseline.sh, seed_import.sh, seed_confirm.sh, seed_run.sh, ref_run.sh, ref_all.sh, regress.sh,
                            gen_manifest.py, gen_matrix.py, gen_design.py, validate.py
@@ -425,7 +425,7 @@ the clean tree, patch applies and builds, demo fails with the patch, suite
 passes twice with the patch) before it was kept under `/verif/seeded/<id>/`
 (`patch.diff`, `zz_seed_demo_test.go`, `meta.json`), and each was then applied
 to `/repo` itself, checked, and undone (`tools/seed_confirm.sh`, recorded in
-`meta.json: check_against_repo`). 580 kept (40 in round 1, 60 in each of rounds 2-10).
+`meta.json: check_against_repo`). 620 kept (40 in round 1, 60 in each of rounds 2-10, 40 in round 11).
 
 * Round 1 (40): all caught by the rules that existed when each seed arrived,
   several of which (`C03.split-halves` rewrite direction, `C19.tail-cleared`
@@ -683,8 +683,30 @@ to `/repo` itself, checked, and undone (`tools/seed_confirm.sh`, recorded in
   site's guards, or by narrowing the rule to what the defect needs (an offset computed
   from `len(d.a)`).
 
+* Round 11 (40: two per property, after the round-11 refactoring hardening; prompts
+  listed all twenty-nine earlier mutations per property): **35 caught at once,
+  5 missed** - the best rate so far. (a) *sibling property*: `C14.prefill-full`
+  (MapStream's pre-fill loop sends exactly as many tokens as the channel's capacity;
+  the condition was known to `C10.ctx-arm` only - now a rule of its own that also
+  finds the loop in `filledTokenChan(n)` / `newTokens(n)` helpers). (b) *new necessary
+  conditions*: `C07.collect-drains` (every return of `iterator.Collect` / `Reduce`
+  follows the exhaustion of the iterator or a hand-over to a reducer that drains it:
+  no shortcut that copies the items out of a known iterator type without pulling
+  them), `C19.chunk-panics-first` (every return of `xslices.Chunk` comes after the
+  division by `chunkSize` - the documented panic - or an explicit test of it),
+  `C08.failed-next-hands-out-nothing` (no `Next` of package stream returns, with an
+  error that may be non-nil, a slice kept in a field of its receiver: `Chunk`'s
+  partial chunk handed out with the error is emitted by `FlattenSlices`, which stores
+  both results before testing the error, and delivered again by the retry),
+  `C03.cmp-constructors-direct` (`NewMapCmp` / `NewSetCmp` hand the comparison they
+  are given to `newBtree` itself: wrapped into a less function and turned back, every
+  probe that is not "smaller" costs two comparisons - more than 15 per level). The
+  new rules alarmed on 3 kept refactorings when first run (`for item, ok := it.Next();
+  ok; …` in `Reduce`, the pre-fill inside `newTokens(n)` through `t.release()`); both
+  shapes are followed now.
+
 A rule written after seeing a seed says so above; that is the honest reading of
-"caught": all 580 seeds are reported today; in rounds 2-10, 348 of 540 were
+"caught": all 620 seeds are reported today; in rounds 2-11, 383 of 580 were
 reported by the rules that existed when the seed arrived.
 
 ### 8.2 Controls
